@@ -231,7 +231,11 @@ class ParseMCNPCell:
         importances = {}
         while kw_list:
             elt = kw_list.pop()
-            if elt.startswith('imp'):
+            # the name of the keyword, without the star and the particle
+            # designator; other cell parameters (TMP, VOL, NONU, UNC:N...) and
+            # their values are skipped
+            name = elt.lstrip('*').partition(':')[0]
+            if name == 'imp':
                 importance = mcnp_float(kw_list.pop())
                 # the importance of the cell is the maximum over the particle
                 # types; for a given particle type, the last value wins (this
@@ -239,21 +243,21 @@ class ParseMCNPCell:
                 for particle in elt.partition(':')[2].split(','):
                     importances[particle] = importance
                 keywords['importance'] = max(importances.values())
-            elif 'fill' in elt:
+            elif name == 'fill':
                 f_bounds, f_univs, f_params = self.parse_fill_kw(elt, kw_list)
                 keywords['f_bounds'] = f_bounds
                 keywords['f_univs'] = f_univs
                 keywords['f_params'] = f_params
-            elif 'lat' in elt:
+            elif name == 'lat':
                 keywords['lattice'] = self.parse_lat_kw(kw_list)
-            elif 'trcl' in elt:
+            elif name == 'trcl':
                 keywords['trcl'] = self.parse_trcl_kw(elt, kw_list)
-            elif 'u' in elt:
+            elif name == 'u':
                 keywords['u'] = int(mcnp_float(kw_list.pop()))
-            elif 'rho' in elt:
+            elif name == 'rho':
                 # only relevant for LIKE n BUT cells
                 keywords['density'] = kw_list.pop()
-            elif 'mat' in elt:
+            elif name == 'mat':
                 # only relevant for LIKE n BUT cells
                 keywords['material'] = kw_list.pop()
         return keywords
